@@ -22,6 +22,10 @@ Model driver for C03. Line protocol (single spaces between fields; see harness/p
      A<b>                       kc.Ask
      R<b>:<off>:<len>           kc.ReadAt (shared BlockCache{MaxBlocks}), then a synchronous Sweep
      r<len> | k<off>            File.Read / File.Seek(off, SeekStart) on handle 0, Sweep after each Read
+     H<b> | V<k>                H: kc.BlockCache.Get(kc, locator), keep the returned slice (k-th held), Sweep;
+                                V: print held slice k again
+     P<b>                       kc.PutB(copy of the planted content) to services that accept every PUT, then
+                                the caller overwrites its buffer
      o<path>                    (new manifest form) kc.CollectionFileReader(manifest, path): next handle
      r<h>:<len> | k<h>:<off>    File.Read / File.Seek on handle h
   every op result of a session is followed by '@' and the number of HTTP requests made so far
@@ -118,6 +122,9 @@ structure Sess where
   files : Option (List (String × List Seg)) := none
   /-- open handles: segments of the file and the handle's pointer; `none` = the open failed -/
   handles : Array (Option (List Seg × Ptr)) := #[]
+  /-- slices returned by BlockCache.Get that the caller still holds (values: they never change) -/
+  held : Array Bytes := #[]
+  nsvc : Nat := 0
 
 def showLog (l : List (Nat × Nat)) : String :=
   if l.isEmpty then "log=-" else "log=" ++ ",".intercalate (l.map (fun p => s!"{p.1}.{p.2}"))
@@ -273,6 +280,28 @@ def runOp (st : Sess) (op : String) : Option (String × Sess) :=
         some (s!"r:{d.length}:{hexB d}:{optErr err}", doSweep st')
       | none => none
     | none => none
+  else if op.startsWith "H" then
+    -- BlockCache.Get(kc, locator): the caller keeps the returned slice; then a synchronous Sweep
+    match parseNat? (op.drop 1).toString with
+    | some b =>
+      match sessCacheGet st b with
+      | some (e, st') => some (s!"h:{hexB e.data}:{optErr e.err}", doSweep { st' with held := st'.held.push e.data })
+      | none => none
+    | none => none
+  else if op.startsWith "V" then
+    -- look at a held slice again: it is a value, nothing that happened since can have changed it
+    match parseNat? (op.drop 1).toString with
+    | some k =>
+      match st.held[k]? with
+      | some d => some (s!"v:{hexB d}", st)
+      | none => some ("v:none", st)
+    | none => none
+  else if op.startsWith "P" then
+    -- kc.PutB(copy of the planted content) against services that store everything, after which the
+    -- caller overwrites its buffer: writing does not touch the block cache
+    match parseNat? (op.drop 1).toString with
+    | some b => if b < st.blks.size then some (if st.nsvc = 0 then "p:err" else "p:ok", st) else none
+    | none => none
   else if op.startsWith "r" then
     let a := (op.drop 1).toString
     if a.contains ':' then
@@ -370,7 +399,7 @@ def stepSess (retries maxb nsvc blocks toks ops : String) : String :=
       match openFiles blks toks with
       | none => "bad-op"
       | some (files, auto) =>
-        let st0 : Sess := { blks := blks, tries := r + 1, maxBlocks := mb, files := files }
+        let st0 : Sess := { blks := blks, tries := r + 1, maxBlocks := mb, files := files, nsvc := k }
         -- the old form opens the file f once at the start (handle 0)
         let st : Sess := if auto then
             { st0 with handles := #[match files with
